@@ -29,18 +29,17 @@ Part "config" (E1): Theme.config -> Theme.from_file over a C06-style universe of
     (1.3 k styles: every attribute in 3 states, all attribute pairs, 12 colour spellings
     for fg/bg and all fg x bg pairs, 2 links; names lower-case dotted identifiers, links
     without "%" and whitespace), as 1-style and 6-style themes, through the keyword and
-    the definition-string route, with and without inherited defaults; thorough adds all
-    pairs U x U.
+    the definition-string route, with and without inherited defaults (all four Theme(inherit) x
+    from_file(inherit) combinations); a family that puts the null style under fresh names, over non-null
+    defaults and over a null default, alone / beside a non-null entry / as every entry; names must be
+    equal in both directions and every style equal; thorough adds all pairs U x U.
 
 Measured on this sandbox (CPU seconds summed over workers; the machine was shared while
-measuring, on 16 idle cores divide by ~14):
-    unchanged tree (use_theme(inherit=False) defect prunes a quarter of the pushes):
-        quick     193,447 states  419,300 transitions   8,243 config themes      ~80 s CPU
-        thorough  193,447 states  656,051 transitions   1,069,143 config themes  ~600 s CPU
-    with ThemeContext.__enter__ passing inherit on:
-        quick     622,799 states  1,000,141 transitions (592,944 states left at the depth cap,
-                  space of height <= 4 closed)                                   ~225 s CPU
-        thorough  622,799 states  1,889,557 transitions, closed at height <= 5   ~1200 s CPU
+measuring, on 16 idle cores divide by ~14), tree with ThemeContext.__enter__ passing inherit on:
+    quick     622,799 states  1,000,141 transitions (592,944 states left at the depth cap,
+              space of height <= 4 closed), 9,586 config themes (7 s CPU)       ~215 s CPU
+    thorough  622,799 states  1,889,557 transitions, closed at height <= 5,
+              1,070,486 config themes                                          ~1200 s CPU
 """
 import collections
 import io
@@ -623,6 +622,11 @@ COLORS = collections.OrderedDict([
 ])
 LINKS = ["http://example.com/a?b=c#d", "HTTPS://X.org/;p:1"]
 CFG_NAMES = ["a", "repr.number", "my.style_1", "b2", "log.level.info", "rule.line"]
+# names that get the null style: fresh names, non-null defaults, and a default that is null already
+NULL_NAMES = CFG_NAMES + ["repr.str", "bold", "none", "quiet"]
+# (Theme(inherit), from_file(inherit)); reading a non-inheriting theme with inherit=True must give
+# the default table overlaid with the theme's entries
+INHERIT_COMBOS = ((False, False), (True, True), (True, False), (False, True))
 
 _UNIVERSE = []
 
@@ -698,11 +702,25 @@ def _config_cases(tier):
     """-> (styles ((name, universe index), ...), route, theme inherit, read inherit)"""
     U = universe()
     n = len(U)
-    for ti, ri in ((False, False), (True, True), (True, False)):
+    for ti, ri in INHERIT_COMBOS:
         yield ((), "obj", ti, ri)
+    # the null style is a value like any other: under every kind of name (fresh, overriding a non-null
+    # default, overriding a default that is itself null), alone, next to a non-null entry, and as the
+    # only kind of entry; through Style() and through "none"; every write/read inherit combination
+    nonnull = (1, n // 2, n - 1)
+    for route in ("obj", "str"):
+        for ti, ri in INHERIT_COMBOS:
+            for name in NULL_NAMES:
+                yield (((name, 0),), route, ti, ri)
+                for k, other in zip(nonnull, ("zz.other", "repr.str", "a")):
+                    if other != name:
+                        yield (((name, 0), (other, k)), route, ti, ri)
+            yield (tuple((name, 0) for name in NULL_NAMES), route, ti, ri)
     for i in range(n):
         for route in ("obj", "str"):
             yield (((CFG_NAMES[i % len(CFG_NAMES)], i),), route, False, False)
+    for i in range(n):
+        yield (((CFG_NAMES[(i + 1) % len(CFG_NAMES)], i),), "str" if i % 2 else "obj", False, True)
     for i in range(n):
         name = "repr.number" if i % 2 == 0 else "my.style_1"
         for ri in (True, False):
@@ -744,13 +762,15 @@ def check_config(styles, route, ti, ri, res):
     kinds = (min(max((len(d[0]) for _, d in styles), default=0), 3),
              any(d[1] for _, d in styles), any(d[2] for _, d in styles), any(d[3] for _, d in styles))
     res.sig(("config", route, ti, ri, min(len(styles), 2)) + kinds, nontrivial=bool(styles))
-    if set(got) != set(have):
+    back_want = dict(_defaults()) if ri else {}
+    back_want.update(have)                  # == have whenever the theme itself inherited
+    if set(got) != set(back_want):          # both directions: nothing lost, nothing invented
         res.violate("config/names-differ", case, "lost %r, invented %r; config tail %r" % (
-            sorted(set(have) - set(got))[:5], sorted(set(got) - set(have))[:5], text[-200:]))
-    elif got != have:
-        bad = sorted(n for n in have if got[n] != have[n])
+            sorted(set(back_want) - set(got))[:5], sorted(set(got) - set(back_want))[:5], text[-200:]))
+    elif got != back_want:
+        bad = sorted(n for n in back_want if got[n] != back_want[n])
         res.violate("config/style-differs", case, "; ".join(
-            "%s: wrote %s read %s" % (n, _show(("s", have[n])), _show(("s", got[n]))) for n in bad[:4]))
+            "%s: wrote %s read %s" % (n, _show(("s", back_want[n])), _show(("s", got[n]))) for n in bad[:4]))
 
 
 def _part_config(sh, tier, res):
@@ -771,10 +791,11 @@ def _part_config(sh, tier, res):
 
 # ------------------------------------------------------------------ protocol
 def plan(tier, seed):
-    shards = _stack_shards()
+    # the config shards are cheap (seconds) and go first, so that a wall cap hit on a loaded
+    # machine can only cut the BFS short, never skip the round trip
     nc = 8 if tier == "quick" else 48
-    shards += [{"part": "config", "i": i, "n": nc} for i in range(nc)]
-    return shards
+    shards = [{"part": "config", "i": i, "n": nc} for i in range(nc)]
+    return shards + _stack_shards()
 
 
 def run_shard(sh, tier, seed):
